@@ -87,7 +87,7 @@ void harness(void) { Guard* a; Guard* b; MoveCtor(a, b); VF_CANARY("end"); }
     b_t = find_body(repo, F_G, r'bool\s+TryLock\s*\(\s*\)\s*noexcept', 'Guard::TryLock', within=WG)
     b_u = find_body(repo, F_G, r'void\s+UnlockHere\s*\(\s*\)\s*noexcept', 'Guard::UnlockHere', within=WG)
     b_i = find_body(repo, F_G, r'static\s+bool\s+TryLockImpl\s*\(\s*M\s*&\s*m\s*\)', 'Guard::TryLockImpl', within=WG)
-    gpre = [(r'auto\s*\*\s*m\s*=\s*static_cast<M\s*\*>\(\s*(LockState|UnlockState)\(\)\s*\)\s*;', r'void* m = \1(self);', 0), (r'if\s*\(\s*\*this\s*\)', 'if (OwnsLock(self))', 0),
+    gpre = [(r'auto\s*\*\s*m\s*=\s*static_cast<M\s*\*>\(\s*(LockState|UnlockState)\(\)\s*\)\s*;', r'void* m = \1(self);', 0), (r'if\s*\(\s*\*this\s*\)', 'if (OwnsLock(self))', 0), (r'(?<![\w.>:])Owns\(\s*\)', 'OwnsLock(self)', 0), (r'static_cast<bool>\(\s*\*this\s*\)', 'OwnsLock(self)', 0),
             (r'm->UnlockHereShared\(\)', 'M_UnlockHereShared(m)', 0), (r'm->UnlockHere\(\)', 'M_UnlockHere(m)', 0), (r'TryLockImpl\(\s*\*m\s*\)', 'TryLockImpl(m)', 0),
             (r'm\.TryLockShared\(\)', 'M_TryLockShared(m)', 0), (r'm\.TryLock\(\)', 'M_TryLock(m)', 0)]
     STUBS = '''void M_UnlockHere(void* m) __CPROVER_requires(m != 0) __CPROVER_assigns(g_unlock_here, g_on) __CPROVER_ensures(g_unlock_here == OLD(g_unlock_here) + 1 && g_on == m);
